@@ -15,7 +15,7 @@ Init == /\ l = 1 /\ scn = "" /\ kind = "" /\ p = 0 /\ due = Off /\ owed = Off /\
         /\ pend = {} /\ inWin = 0 /\ tainted = FALSE /\ live = FALSE /\ viol = <<>> /\ done = FALSE
 
 Family(clause) == IF clause \in {"run_after_cancel", "run_early", "run_late", "run_not_due", "missed"} THEN "timing"
-                  ELSE IF clause \in {"goroutine_leak", "goroutine_leak_at_exit", "goroutine_missing"} THEN "leak"
+                  ELSE IF clause \in {"goroutine_leak", "goroutine_leak_at_exit", "goroutine_missing", "timer_left_armed"} THEN "leak"
                   ELSE "other"
 V(clause) == [scn |-> scn, line |-> l, clause |-> clause, family |-> Family(clause), tainted |-> tainted, kind |-> kind]
 \* Once the tick window has been exploited the contract state no longer tracks the timer,
@@ -48,7 +48,8 @@ Step ==
             /\ UNCHANGED <<scn, kind, p, cancelled, pend, inWin, tainted, live>>
        [] e.e = "stop.call" ->
             /\ pend' = pend \cup {[c |-> e.c, at |-> e.t]}
-            /\ tainted' = (tainted \/ inWin > 0)
+            \* (a Stop arriving while a fired goroutine has not reached the mutex is what the generations are for: no excuse)
+            /\ tainted' = tainted
             /\ viol' = v0 /\ due' = due0 /\ owed' = owed0
             /\ UNCHANGED <<scn, kind, p, cancelled, inWin, live>>
        [] e.e = "stop.ret" ->
@@ -57,14 +58,14 @@ Step ==
             /\ UNCHANGED <<scn, kind, p, inWin, tainted, live>>
        [] e.e = "refresh.call" ->
             /\ due' = e.t + p /\ owed' = OwedAfterRefresh(due0, owed0, e.t) /\ cancelled' = FALSE
-            /\ tainted' = (tainted \/ inWin > 0)
+            /\ tainted' = tainted
             /\ viol' = v0
             /\ UNCHANGED <<scn, kind, p, pend, inWin, live>>
-       [] e.e = "gate.park" /\ e.point = "timer.interval.ticked" ->
+       [] e.e = "gate.park" /\ e.point = "timer.fired" ->
             /\ inWin' = inWin + 1
             /\ viol' = v0 /\ due' = due0 /\ owed' = owed0
             /\ UNCHANGED <<scn, kind, p, cancelled, pend, tainted, live>>
-       [] e.e = "gate.release" /\ e.point = "timer.interval.ticked" ->
+       [] e.e = "gate.release" /\ e.point = "timer.fired" ->
             /\ inWin' = (IF inWin > 0 THEN inWin - 1 ELSE 0)
             /\ viol' = v0 /\ due' = due0 /\ owed' = owed0
             /\ UNCHANGED <<scn, kind, p, cancelled, pend, tainted, live>>
@@ -81,7 +82,9 @@ Step ==
             /\ live' = FALSE /\ due' = Off /\ owed' = Off
             /\ UNCHANGED <<scn, kind, p, cancelled, pend, inWin, tainted>>
        [] e.e = "cleanup.done" ->
-            /\ viol' = (IF e.g # 0 THEN Add(viol, "goroutine_leak_at_exit") ELSE viol)
+            \* after the final cancellation no goroutine is left and the runtime timer does not fire any more
+            /\ viol' = (IF e.g # 0 THEN Add(viol, "goroutine_leak_at_exit")
+                        ELSE IF "firedAfter" \in DOMAIN e /\ e.firedAfter # 0 THEN Add(viol, "timer_left_armed") ELSE viol)
             /\ UNCHANGED <<scn, kind, p, due, owed, cancelled, pend, inWin, tainted, live>>
        [] e.e = "bubble.panic" ->
             /\ viol' = Add(viol, IF e.leak THEN "goroutine_leak_at_exit" ELSE "panic")
